@@ -162,7 +162,10 @@ func (c *conn) handleSubscribe(in *inEnvelope) error {
 
 	initial := true
 	c.subscriptionLogger.Subscribe(c.ctx, id, tags)
-	c.subscriptions[id] = reactive.NewRerunner(c.ctx, func(ctx context.Context) (interface{}, error) {
+	// self is this subscription's rerunner. It is assigned below while c.mu is still
+	// held and only read under c.mu, by closeSubscriptionOf.
+	var self *reactive.Rerunner
+	self = reactive.NewRerunner(c.ctx, func(ctx context.Context) (interface{}, error) {
 		ctx = c.makeCtx(ctx)
 		ctx = batch.WithBatching(ctx)
 
@@ -197,7 +200,7 @@ func (c *conn) handleSubscribe(in *inEnvelope) error {
 		if err != nil {
 			if ErrorCause(err) == context.Canceled {
 				vh("sub.failed", id, "ctx")
-				go c.closeSubscription(id)
+				go c.closeSubscriptionOf(id, &self)
 				return nil, err
 			}
 
@@ -225,7 +228,7 @@ func (c *conn) handleSubscribe(in *inEnvelope) error {
 				Metadata: output.Metadata,
 			})
 			vh("sub.failed", id, "initial")
-			go c.closeSubscription(id)
+			go c.closeSubscriptionOf(id, &self)
 
 			if _, ok := err.(SanitizedError); !ok {
 				c.logger.Error(ctx, err, tags)
@@ -257,6 +260,7 @@ func (c *conn) handleSubscribe(in *inEnvelope) error {
 		vh("sub.done", id)
 		return nil, nil
 	}, c.minRerunIntervalFunc(c.ctx, query), c.alwaysSpawnGoroutineFunc(c.ctx, query))
+	c.subscriptions[id] = self
 
 	return nil
 }
@@ -299,7 +303,8 @@ func (c *conn) handleMutate(in *inEnvelope) error {
 	initial := true
 	e := c.executor
 	vh("mutate.accepted", id)
-	c.subscriptions[id] = reactive.NewRerunner(c.ctx, func(ctx context.Context) (interface{}, error) {
+	var self *reactive.Rerunner // see handleSubscribe
+	self = reactive.NewRerunner(c.ctx, func(ctx context.Context) (interface{}, error) {
 		// Serialize all mutates for a given connection.
 		c.mutateMu.Lock()
 		defer c.mutateMu.Unlock()
@@ -343,7 +348,7 @@ func (c *conn) handleMutate(in *inEnvelope) error {
 			})
 
 			vh("mut.done", id, false)
-			go c.closeSubscription(id)
+			go c.closeSubscriptionOf(id, &self)
 
 			if ErrorCause(err) == context.Canceled {
 				return nil, err
@@ -366,9 +371,10 @@ func (c *conn) handleMutate(in *inEnvelope) error {
 
 		initial = false
 		vh("mut.done", id, true)
-		go c.closeSubscription(id)
+		go c.closeSubscriptionOf(id, &self)
 		return nil, errors.New("stop")
 	}, c.minRerunIntervalFunc(c.ctx, query), c.alwaysSpawnGoroutineFunc(c.ctx, query))
+	c.subscriptions[id] = self
 
 	return nil
 }
@@ -390,6 +396,21 @@ func (c *conn) closeSubscription(id string) {
 
 	if runner, ok := c.subscriptions[id]; ok {
 		runner.Stop()
+		delete(c.subscriptions, id)
+		c.subscriptionLogger.Unsubscribe(c.ctx, id)
+	}
+}
+
+// closeSubscriptionOf closes the subscription registered under id only if it still is
+// *runner. A subscription or mutation that ends on its own closes itself from a new
+// goroutine; by the time that goroutine runs, the client may already have unsubscribed
+// and subscribed again under the same id, and that newer subscription must survive.
+func (c *conn) closeSubscriptionOf(id string, runner **reactive.Rerunner) {
+	c.mu.Lock()
+	defer c.mu.Unlock()
+
+	if current, ok := c.subscriptions[id]; ok && current == *runner {
+		current.Stop()
 		delete(c.subscriptions, id)
 		c.subscriptionLogger.Unsubscribe(c.ctx, id)
 	}
